@@ -524,7 +524,7 @@ def r179(ctx, R):
                  'no transaction scope is open around the retried function',
                  ['%s (%s)' % (g.qname, g.loc()) for g in outer][:3] or
                  'outermost scope on every path', func=f)
-    R.count('R17.9', n, 3)
+    R.count('R17.9', n, 2)
 
 
 _run_c17d = run
